@@ -21,7 +21,7 @@ func checkC05(w *World, r *Report) {
 	r.Assume = []string{"a SEQUENCE command is applied atomically with its leader index (C01.a-c)"}
 	a := w.FsmAnchors()
 	c05Request(w, r)
-	c05Batching(w, r)
+	c05Batching(w, r, "C05.b", "b-batching-loop")
 	if len(a.Problems) == 0 && a.Update != nil {
 		c05LeaderIndexAtomic(w, r, a)
 		c03Carry(w, r, a, "C05.c2", "c2-no-carry-across-entries")
@@ -37,7 +37,7 @@ func checkC05(w *World, r *Report) {
 	c07Loader(w, r, "C05.f1", "f1-restore-no-record-lost")
 	c07Terminator(w, r, "C05.f2", "f2-restore-index-travels")
 	c07Switch(w, r, "C05.f3", "f3-switch-after-load")
-	c05Reconcile(w, r)
+	c05Reconcile(w, r, "C05.g", "g-table-set-reconciliation")
 }
 
 func c05Request(w *World, r *Report) {
@@ -117,8 +117,8 @@ func c05Request(w *World, r *Report) {
 	ob.NeedFloor(4)
 }
 
-func c05Batching(w *World, r *Report) {
-	ob := r.Ob("C05.b", "b-batching-loop", "worker.proposeBatch: in the loop over the received commands every iteration appends commands[i].Command to the sequence exactly once; between the append and the proposal the sequence's LeaderIndex is set to &commands[i].LeaderIndex of the same element; from the edge 'i is the last index' the loop cannot be left without the proposal; the sequence is truncated / its leader index cleared only in a call deferred inside the proposing closure or after the proposal; from the proposal's error edge only error returns are reachable; the proposal sends the buffer filled by marshalling the sequence; worker.do returns an error when proposeBatch fails", "a dropped tail, a command proposed twice, or a sequence tagged with another command's index makes the follower diverge from the leader at its recorded index")
+func c05Batching(w *World, r *Report, id, slug string) {
+	ob := r.Ob(id, slug, "worker.proposeBatch: in the loop over the received commands every iteration appends commands[i].Command to the sequence exactly once; between the append and the proposal the sequence's LeaderIndex is set to &commands[i].LeaderIndex of the same element; from the edge 'i is the last index' the loop cannot be left without the proposal; the sequence is truncated / its leader index cleared only in a call deferred inside the proposing closure or after the proposal; from the proposal's error edge only error returns are reachable; the proposal sends the buffer filled by marshalling the sequence; worker.do returns an error when proposeBatch fails", "a dropped tail, a command proposed twice, or a sequence tagged with another command's index makes the follower diverge from the leader at its recorded index")
 	fn := w.Func("replication", "worker.proposeBatch")
 	if fn == nil {
 		ob.Undecided("anchor", "worker.proposeBatch not found")
@@ -242,6 +242,21 @@ func c05Batching(w *World, r *Report) {
 	if p := (&Walk{Barrier: isTag, Target: isPropose, EdgeOK: func(b *ssa.BasicBlock, k int) bool { return body[b.Succs[k]] && b.Succs[k] != h }}).Find(after(app)); p != nil {
 		ob.Violate("propose-untagged", instrPos(p.Hit), "the sequence can be proposed without having been tagged with the index of its last command", w.PathString(p)...)
 	}
+	// a proposal is tagged with a command it contains: a tag taken from this iteration's element
+	// before that element was appended must not reach a proposal before the append
+	eachInstr(fn, func(in ssa.Instruction) {
+		if !isTag(in) || !body[in.Block()] {
+			return
+		}
+		// is the tag set before the append of its own element?
+		noBack := func(b *ssa.BasicBlock, k int) bool { return body[b.Succs[k]] && b.Succs[k] != h }
+		if (&Walk{Barrier: isApp, Target: func(x ssa.Instruction) bool { return x == in }, EdgeOK: noBack}).Find(Loc{h, 0}) == nil {
+			return // always after the append
+		}
+		if p := (&Walk{Barrier: isApp, Target: isPropose, EdgeOK: noBack}).Find(after(in)); p != nil {
+			ob.Violate("propose-tag-ahead", instrPos(p.Hit), "a sequence can be proposed tagged with the index of a command that was not appended to it yet: the follower records (and announces to waiting writers) a leader index one command ahead of its data", w.PathString(p)...)
+		}
+	})
 	// last element cannot leave the loop without a proposal
 	ctx := &ExprCtx{}
 	nlast := 0
@@ -483,8 +498,8 @@ func c05LeaderIndexAtomic(w *World, r *Report, a *FsmA) {
 	ob.NeedFloor(2)
 }
 
-func c05Reconcile(w *World, r *Report) {
-	ob := r.Ob("C05.g", "g-table-set-reconciliation", "reconcileTables: a name is collected for deletion only over the false edge of slices.ContainsFunc(leader list, …) and comes from the follower list element; a name is collected for creation only over the false edge of ContainsFunc(follower list, …) and comes from the leader list element; both membership closures compare Name with Name; DeleteTable/CreateTable are called with the collected names; ErrTableNotFound/ErrTableExists are the only tolerated errors", "swapped lists delete every replicated table or never create new ones")
+func c05Reconcile(w *World, r *Report, id, slug string) {
+	ob := r.Ob(id, slug, "reconcileTables: a name is collected for deletion only over the false edge of slices.ContainsFunc(leader list, …) and comes from the follower list element; a name is collected for creation only over the false edge of ContainsFunc(follower list, …) and comes from the leader list element; both membership closures compare Name with Name; DeleteTable/CreateTable are called with the collected names; ErrTableNotFound/ErrTableExists are the only tolerated errors", "swapped lists delete every replicated table or never create new ones")
 	fn := w.Func("replication", "Manager.reconcileTables")
 	if fn == nil {
 		ob.Undecided("anchor", "replication.Manager.reconcileTables not found")
